@@ -57,6 +57,115 @@ pub fn mangled_for_undeclared(text: &str) -> bool {
     text.contains("wx:for=") && text.contains("_$") && !text.contains("wx:for-item=\"_$") && !text.contains("wx:for-index=\"_$")
 }
 
+/// The listed finding C14-mangled-for-scope-undeclared, repaired at the call site so that the rest
+/// of the mangled output can still be judged: every `wx:for` of the mangled text gets the
+/// declarations `wx:for-item="_$N" wx:for-index="_$N+1"` the stringifier leaves out, N being the
+/// number of scope names open at that point (loops open two, every `slot:x="_$k"` reference one).
+/// Returns None when the text does not have the canonical shape this scanner expects.
+pub fn declare_mangled_for_names(text: &str) -> Option<String> {
+    let b: Vec<char> = text.chars().collect();
+    let mut out = String::with_capacity(text.len() + 64);
+    // per open element: how many scope names it opened
+    let mut stack: Vec<(String, usize)> = vec![];
+    let mut depth = 0usize;
+    let mut i = 0;
+    while i < b.len() {
+        if b[i] != '<' {
+            // text: copy up to the next tag, leaving bindings alone
+            if b[i] == '{' && i + 1 < b.len() && b[i + 1] == '{' {
+                let mut j = i + 2;
+                while j + 1 < b.len() && !(b[j] == '}' && b[j + 1] == '}') {
+                    j += 1;
+                }
+                let end = (j + 2).min(b.len());
+                out.extend(&b[i..end]);
+                i = end;
+                continue;
+            }
+            out.push(b[i]);
+            i += 1;
+            continue;
+        }
+        // comment
+        if b[i..].starts_with(&['<', '!', '-', '-']) {
+            let mut j = i + 4;
+            while j + 2 < b.len() && !(b[j] == '-' && b[j + 1] == '-' && b[j + 2] == '>') {
+                j += 1;
+            }
+            let end = (j + 3).min(b.len());
+            out.extend(&b[i..end]);
+            i = end;
+            continue;
+        }
+        // find the end of the tag, outside quotes
+        let mut j = i + 1;
+        let mut quote: Option<char> = None;
+        while j < b.len() {
+            match quote {
+                Some(q) if b[j] == q => quote = None,
+                Some(_) => {}
+                None if b[j] == '"' || b[j] == '\'' => quote = Some(b[j]),
+                None if b[j] == '>' => break,
+                None => {}
+            }
+            j += 1;
+        }
+        if j >= b.len() {
+            return None;
+        }
+        let tag: String = b[i..=j].iter().collect();
+        if tag.starts_with("</") {
+            let name: String = tag[2..tag.len() - 1].trim().to_string();
+            match stack.pop() {
+                Some((n, k)) if n == name => depth -= k,
+                _ => return None,
+            }
+            out.push_str(&tag);
+            i = j + 1;
+            continue;
+        }
+        let self_closing = tag.ends_with("/>");
+        let name: String = tag[1..].chars().take_while(|c| !c.is_whitespace() && *c != '/' && *c != '>').collect();
+        if name == "wxs" {
+            // a script module is a scope name of the whole file
+            depth += 1;
+        }
+        if name == "wxs" && !self_closing {
+            // inline script: copy verbatim up to its end tag
+            let rest: String = b[j + 1..].iter().collect();
+            let end = rest.find("</wxs>")?;
+            out.push_str(&tag);
+            out.push_str(&rest[..end + 6]);
+            i = j + 1 + rest[..end + 6].chars().count();
+            continue;
+        }
+        let mut opened = 0usize;
+        let mut tag_out = tag.clone();
+        if tag.contains(" wx:for=\"") {
+            if tag.contains(" wx:for-item=") || tag.contains(" wx:for-index=") {
+                return None;
+            }
+            let decl = format!(" wx:for-item=\"_${}\" wx:for-index=\"_${}\"", depth, depth + 1);
+            let cut = if self_closing { tag.len() - 2 } else { tag.len() - 1 };
+            tag_out = format!("{}{}{}", &tag[..cut], decl, &tag[cut..]);
+            opened += 2;
+        }
+        // slot value references are declared by the stringifier itself
+        opened += regex::Regex::new(r#" slot:[^=\s"]+="_\$\d+""#).map(|re| re.find_iter(&tag).count()).unwrap_or(0);
+        out.push_str(&tag_out);
+        if !self_closing {
+            stack.push((name, opened));
+            depth += opened;
+        }
+        i = j + 1;
+    }
+    if stack.is_empty() {
+        Some(out)
+    } else {
+        None
+    }
+}
+
 fn known_listed(id: &str) -> bool {
     static LISTED: std::sync::OnceLock<Vec<String>> = std::sync::OnceLock::new();
     LISTED.get_or_init(|| load_known_findings().into_iter().filter(|k| k.kind == "finding").map(|k| k.id).collect()).iter().any(|x| x == id)
@@ -142,7 +251,24 @@ pub fn run_explicit_opt(ew: &Value, want_log: bool, apply_known: bool) -> RunRes
     }
     let a = compile_group(&sources, &scripts);
     let b = compile_group(&printed, &scripts);
-    let c = compile_group(&mangled, &scripts);
+    // the listed finding (mangled wx:for names are never declared) is repaired at its call site, so
+    // that everything else the mangled output says is still judged
+    let mut mangled_repaired = false;
+    let mut c = compile_group(&mangled, &scripts);
+    if apply_known && known_listed("C14-mangled-for-scope-undeclared") && mangled_for_undeclared(&mangled_texts(&mangled)) {
+        let repaired: Option<Vec<(String, String)>> = mangled.iter().map(|(p, t)| if mangled_for_undeclared(t) { declare_mangled_for_names(t).map(|x| (p.clone(), x)) } else { Some((p.clone(), t.clone())) }).collect();
+        if let Some(rep) = repaired {
+            if let Ok(cb) = compile_group(&rep, &scripts) {
+                // every mangled name must now be bound: no read of a data field called _$n is left
+                if !regex::Regex::new(r"D\._\$\d").map(|re| re.is_match(&cb.bundle)).unwrap_or(true) {
+                    stats.add("probe.mangled_for_names_declared_by_harness", 1);
+                    c = Ok(cb);
+                    mangled = rep;
+                    mangled_repaired = true;
+                }
+            }
+        }
+    }
     let (a, b, c) = match (a, b, c) {
         (Ok(a), Ok(b), Ok(c)) => (a, b, c),
         _ => return discard("unexecutable: compile failed", "discard.compile_failed"),
@@ -167,7 +293,7 @@ pub fn run_explicit_opt(ew: &Value, want_log: bool, apply_known: bool) -> RunRes
             let class = format!("{}{}", if is_mangled { "mangled_" } else { "" }, v["class"].as_str().unwrap_or(""));
             // known call site: in mangling mode the stringifier renames wx:for item/index references
             // but never declares the new names (pinned by the repository's own tests)
-            if apply_known && is_mangled && mangled_for_undeclared(&mangled_texts(&mangled)) && known_listed("C14-mangled-for-scope-undeclared") {
+            if apply_known && is_mangled && !mangled_repaired && mangled_for_undeclared(&mangled_texts(&mangled)) && known_listed("C14-mangled-for-scope-undeclared") {
                 r.stats.add("probe.known_finding.C14-mangled-for-scope-undeclared", 1);
             } else {
                 r.outcome = Outcome::Violated(Violation { class, detail: v["detail"].as_str().unwrap_or("").to_string() });
